@@ -333,6 +333,22 @@ def drive_e2e(work, events, cfg, filterstr, name="c17_e2e.json"):
     return uids, metas
 
 
+def baseline_in_fresh_process(work, name="c17_e2e.json"):
+    """uids exported by `acelyzer -i <the file drive_e2e just wrote>` in a new interpreter (None if that fails)"""
+    import subprocess
+    inp, outp = os.path.join(work, name), os.path.join(work, "fresh_" + name)
+    env = dict(os.environ, PYTHONPATH=os.path.join(coqrun.REPO, "src"), PYTHONHASHSEED="0")
+    r = subprocess.run(["/venv/bin/python", "-c",
+                        "import sys; from aiu_trace_analyzer.core.acelyzer import Acelyzer; "
+                        "sys.exit(Acelyzer(sys.argv[1:]).run())"] + e2e_argv(inp, outp, None, None),
+                       env=env, stdout=subprocess.DEVNULL, stderr=subprocess.DEVNULL, timeout=300)
+    if r.returncode != 0 or not os.path.exists(outp):
+        return None
+    data = json.load(open(outp))
+    te = data["traceEvents"] if isinstance(data, dict) else data
+    return [e.get("args", {}).get("uid") for e in te if e.get("ph") == "X"]
+
+
 def arrival_stream(work, name="c17_e2e.json"):
     """what the real ingestion delivers for that file (and the job table entry it registered)"""
     from aiu_trace_analyzer.ingest.ingestion import MultifileIngest
@@ -500,6 +516,8 @@ def check_mono(case):
 def check_e2e(case, work, res=None):
     events, cfg, flt = case["events"], case["cfg"], case["filter"]
     if res is None:
+        if case.get("history"):     # replay of a history finding: a limited run first, in this very process
+            drive_e2e(work, events, {"skip": 1, "count": 1, "ts_start": 1.0, "ts_end": 2.0}, "name:zzz")
         res = drive_e2e(work, events, cfg, flt)
     tags = ["clean"] * len(events)
     exp = o_expected(events, tags, cfg if cfg is not None else {}, flt or "")
@@ -1036,6 +1054,16 @@ def run(ctx):
             if isinstance(base, enc.Err) or sorted(base[0]) != alluids:
                 dist.setdefault("e2e_rejected_baseline", 0)
                 dist["e2e_rejected_baseline"] += 1
+                # a run WITHOUT --event_limit/--event_filter that loses slices in this process but not in a fresh one
+                # selects by something other than its own command line (limits of an earlier run still in force)
+                fresh = baseline_in_fresh_process(work)
+                if fresh is not None and sorted(fresh) == alluids and len(oracle_failures) < 6:
+                    oracle_failures.append({
+                        "input": {"mode": "e2e", "events": events, "cfg": None, "filter": None,
+                                  "history": "earlier Acelyzer runs of this process used --event_limit/--event_filter"},
+                        "expected": "every slice exported (no limit, no filter on the command line)",
+                        "observed": {"in_process": repr(base)[:300], "fresh_process": "all %d slices" % len(alluids)},
+                        "signature": {"kind": "selection_depends_on_earlier_runs_of_the_process"}})
                 if scen < len(corpus_e2e):
                     scen += 1
                 continue              # generator constraint: the scenario must survive the default pipeline intact
